@@ -149,7 +149,7 @@ class Inliner:
             return None
         if any(isinstance(n, (ast.FunctionDef, ast.AsyncFunctionDef, ast.Lambda, ast.ClassDef)) for n in ast.walk(callee.node) if n is not callee.node):
             return None  # factories: splicing them would move their closures into the caller
-        decos = [d for d in callee.decorators if not d.endswith("staticmethod")]
+        decos = [d for d in callee.decorators if not d.endswith(("staticmethod", "classmethod"))]
         if decos:
             return None
         if _is_generator(callee.node) != generator:
@@ -169,7 +169,14 @@ class Inliner:
         private = callee.name.startswith("_")
         on_self = isinstance(f, ast.Attribute) and isinstance(f.value, ast.Name) and fi.cls is not None and fi.params and f.value.id == fi.params[0] \
             and callee.cls is not None
-        if isinstance(f, ast.Attribute) and not on_self:
+        on_class = False
+        if isinstance(f, ast.Attribute) and not on_self and isinstance(f.value, ast.Name) and callee.cls is not None \
+                and any(d.endswith(("classmethod", "staticmethod")) for d in callee.decorators):
+            from .loader import ClassInfo
+            r_ = self.repo.lookup(f.value.id, fi.module, fi)
+            # Cls.make(...) with Cls a class of this module: an alternative constructor / helper kept on the class
+            on_class = isinstance(r_, ClassInfo) and r_ is callee.cls and f.value.id not in _local_names(fi.node)
+        if isinstance(f, ast.Attribute) and not on_self and not on_class:
             return None
         if nested_direct and callee.parent is fi:
             # a nested function of this very function, called directly (not passed around as a closure)
@@ -182,7 +189,19 @@ class Inliner:
                 return callee
         if private and (on_self or (isinstance(f, ast.Name) and callee.cls is None and callee.parent is None)):
             return callee
+        if on_class and not self._escapes_module(callee):
+            return callee
         return None
+
+    def _escapes_module(self, callee: FuncInfo) -> bool:
+        """Is the (public-looking) class helper also used outside its module? Then it stays a function for everybody."""
+        name = callee.name
+        for m in self.repo.modules.values():
+            if m is callee.module:
+                continue
+            if any(isinstance(x, ast.Attribute) and x.attr == name for x in ast.walk(m.tree)):
+                return True
+        return False
 
     # -------------------------------------------------------------- splicing
     def _expand(self, fi: FuncInfo, callee: FuncInfo, call: ast.Call, target: ast.expr | None, stack: tuple[str, ...], depth: int,
@@ -533,6 +552,82 @@ class _SetattrUnroller(ast.NodeTransformer):
         return out
 
 
+class _ArgLoopUnroller(ast.NodeTransformer):
+    """for long, dest in (("--a", "a"), ("--b", "b")): parser.add_argument(long, dest=dest, ...)
+         ->   parser.add_argument("--a", dest="a", ...); parser.add_argument("--b", dest="b", ...)
+    A `for` over a literal tuple / list of constants (or of equal-length tuples of constants) whose body is a short run of
+    expression statements that only *read* the loop variables is written out element by element. (Used for the argparse
+    declarations, which the CLI model reads literally.)"""
+
+    def __init__(self, fi: FuncInfo) -> None:
+        self.fi = fi
+        self.count = 0
+
+    def visit_FunctionDef(self, node):
+        if node is self.fi.node:
+            self.generic_visit(node)
+        return node
+
+    visit_AsyncFunctionDef = visit_FunctionDef
+
+    def visit_Lambda(self, node):
+        return node
+
+    def visit_For(self, node: ast.For):
+        self.generic_visit(node)
+        it = node.iter
+        if node.orelse or not isinstance(it, (ast.Tuple, ast.List)) or not it.elts or len(it.elts) > 16:
+            return node
+        tnames = [node.target.id] if isinstance(node.target, ast.Name) else (
+            [e.id for e in node.target.elts] if isinstance(node.target, (ast.Tuple, ast.List)) and all(isinstance(e, ast.Name) for e in node.target.elts) else None)
+        if tnames is None:
+            return node
+        rows: list[list[ast.AST]] = []
+        for e in it.elts:
+            if isinstance(node.target, ast.Name):
+                if not isinstance(e, ast.Constant):
+                    return node
+                rows.append([e])
+            else:
+                if not (isinstance(e, (ast.Tuple, ast.List)) and len(e.elts) == len(tnames) and all(isinstance(x, ast.Constant) for x in e.elts)):
+                    return node
+                rows.append(list(e.elts))
+        if len(node.body) > 4 or not all(isinstance(st, ast.Expr) and isinstance(st.value, ast.Call) for st in node.body):
+            return node
+        for st in node.body:
+            for x in ast.walk(st):
+                if isinstance(x, ast.Name) and x.id in tnames and not isinstance(x.ctx, ast.Load):
+                    return node
+                if isinstance(x, (ast.Lambda, ast.ListComp, ast.SetComp, ast.DictComp, ast.GeneratorExp, ast.NamedExpr, ast.Yield, ast.YieldFrom, ast.Await)):
+                    return node
+        # the loop variables must not be read after the loop
+        out: list[ast.stmt] = []
+        for row in rows:
+            env = dict(zip(tnames, row))
+
+            class _Sub(ast.NodeTransformer):
+                def visit_Name(s2, n: ast.Name):  # noqa: N805
+                    if n.id in env and isinstance(n.ctx, ast.Load):
+                        return ast.copy_location(clone(env[n.id]), n)
+                    return n
+
+            for st in node.body:
+                out.append(ast.copy_location(_Sub().visit(clone(st)), st))
+        later_reads = False
+        end_ = getattr(node, "end_lineno", 0)
+        stores_after = {nm: sorted(getattr(x, "lineno", 0) for x in ast.walk(self.fi.node)
+                                   if isinstance(x, ast.Name) and x.id == nm and isinstance(x.ctx, ast.Store) and getattr(x, "lineno", 0) > end_) for nm in tnames}
+        for x in ast.walk(self.fi.node):
+            if isinstance(x, ast.Name) and x.id in tnames and isinstance(x.ctx, ast.Load) and getattr(x, "lineno", 0) > end_:
+                # read after the loop: harmless only if the name was bound again in between (a later loop reusing it)
+                if not any(ln <= x.lineno for ln in stores_after[x.id]):
+                    later_reads = True
+        if later_reads:
+            return node
+        self.count += 1
+        return out
+
+
 class _PartialFolder(ast.NodeTransformer):
     """f = partial(g, a, k=v) ... f(x, y=z)   ->   g(a, x, k=v, y=z)
     for a local `f` that is bound once, only ever called, and whose frozen arguments are constants or names that are never
@@ -802,6 +897,9 @@ def build_inlined_repo(root=None, keep: set[str] | None = None) -> tuple[Repo, d
         u = _SetattrUnroller(work, fi)
         u.visit(fi.node)
         unrolled += u.count
+        al = _ArgLoopUnroller(fi)
+        al.visit(fi.node)
+        unrolled += al.count
         pf = _PartialFolder(fi.node)
         if pf.partials:
             pf.visit(fi.node)
